@@ -138,13 +138,29 @@ def label_vectors_384(rng, nc=384):
 # ---------------------------------------------------------------------------
 # interpolate: implementation run, oracle, encoding
 # ---------------------------------------------------------------------------
-def impl_interp(x, y, labels, data, dtype, label_float):
+def impl_interp(x, y, labels, data, dtype, label_float, layout="C"):
+    """layout: C-contiguous array, Fortran-ordered array, or a strided view into a wider array (the columns
+    in between must stay untouched); coordinates as given or as float arrays."""
     lab = np.array(labels, dtype=np.float64 if label_float else np.int64)
     d = np.array(data, dtype=dtype)
+    wide = None
+    if layout == "F":
+        arg = np.asfortranarray(d)
+    elif layout == "view":
+        wide = np.full((d.shape[0], 2 * d.shape[1] + 1), 77, dtype=d.dtype)
+        wide[:, 1::2] = d
+        arg = wide[:, 1::2]
+    else:
+        arg = d.copy()
+    if layout == "floatxy":
+        x, y = np.asarray(x, dtype=np.float64), np.asarray(y, dtype=np.float32)
     with warnings.catch_warnings():
         warnings.simplefilter("ignore")        # 0/0 when a channel has no neighbour left
-        out = V().interpolate_bad_channels(d.copy(), channel_labels=lab, x=x, y=y)
-    return np.asarray(out)
+        out = V().interpolate_bad_channels(arg, channel_labels=lab, x=x, y=y)
+    out = np.array(out)
+    if wide is not None and not (np.all(wide[:, 0::2] == 77) and np.array_equal(wide[:, 1::2], out, equal_nan=True)):
+        raise AssertionError("strided view: columns outside the view were written or the view was not updated")
+    return out
 
 
 def dtype_tol(dtype, scale):
@@ -310,7 +326,8 @@ def part_interp(ctx, st, model):
         data = [[rng.choice([0, 1, -1, 500, -500, rng.randrange(-500, 501), rng.randrange(-500, 501)])
                  for _ in range(ns)] for _ in range(nc)]
         cases.append({"geom": name, "x": x, "y": y, "labels": list(labels), "data_int": data, "kd": kd,
-                      "dtype": dtype or "float64", "label_float": rng.random() < 0.5})
+                      "dtype": dtype or "float64", "label_float": rng.random() < 0.5,
+                      "layout": rng.choice(["C", "C", "C", "F", "view", "floatxy"])})
 
     # (a) every label vector over {0,1,2,3} on small probes
     nmax_exh = 7 if ctx.thorough() else 5
@@ -356,7 +373,7 @@ def part_interp(ctx, st, model):
         data = [[v * scale_f for v in row] for row in c["data_int"]]
         d = describe_interp(c)
         try:
-            out = impl_interp(x, y, labels, data, c["dtype"], c["label_float"])
+            out = impl_interp(x, y, labels, data, c["dtype"], c["label_float"], c["layout"])
         except Exception as e:
             ctx.fail("interpolate_bad_channels raised %r" % (e,), d, {"op": "interp", "kind": "exception"})
             continue
@@ -390,6 +407,7 @@ def part_interp(ctx, st, model):
         nbad = sum(l in (1, 2) for l in labels)
         st.count("interp_nc%s" % (len(labels) if len(labels) < 384 else "384:" + c["geom"]))
         st.count("interp_" + c["dtype"])
+        st.count("interp_layout_" + c["layout"])
         if nbad:
             st.nontrivial.add(("interp", key[0], key[1], key[2], key[3]))
             st.count("interp_with_bad")
@@ -460,7 +478,7 @@ def part_interp(ctx, st, model):
 def describe_interp(c):
     return {"op": "interp", "geom": c["geom"], "x": [int(v) for v in c["x"]], "y": [float(v) for v in c["y"]],
             "labels": c["labels"], "data_int": c["data_int"], "kd": c["kd"], "dtype": c["dtype"],
-            "label_float": c["label_float"]}
+            "label_float": c["label_float"], "layout": c.get("layout", "C")}
 
 
 # ---------------------------------------------------------------------------
@@ -528,6 +546,52 @@ def part_rule(ctx, st, model):
     inputs, outs, descs = [], [], []
     label_hist = {0: 0, 1: 0, 2: 0, 3: 0}
     ends = {"recordings": 0, "xcor_hf_first_and_last_exactly_zero": 0}
+    def handle(nc, fs, seed_desc, up, sim, lab, feats, steered):
+        lab = np.asarray(lab)
+        if lab.shape != (nc,) or not np.all(np.isin(lab, [0, 1, 2, 3])):
+            ctx.fail("labels are not a vector over {0,1,2,3}", seed_desc, {"op": "rule", "kind": "range"})
+            return
+        inputs.append(enc_rule(nc, fs, up, sim, feats))
+        outs.append([int(v) for v in lab])
+        descs.append({"op": "rule", "nc": nc, "fs": fs, "psd_hf_threshold": up, "similarity_threshold": list(sim),
+                      "xcor_hf": [float(v) for v in feats["xcor_hf"]],
+                      "xcor_lf": [float(v) for v in feats["xcor_lf"]],
+                      "psd_hf": [float(v) for v in feats["psd_hf"]], "labels": [int(v) for v in lab]})
+        for v in lab:
+            label_hist[int(v)] += 1
+        if nc >= 1 and not steered:
+            ends["recordings"] += 1
+            ends["xcor_hf_first_and_last_exactly_zero"] += int(float(feats["xcor_hf"][0]) == 0.0 and
+                                                               float(feats["xcor_hf"][-1]) == 0.0)
+        # oracle on the implementation alone: precedence noisy (2) over dead (1) over the rest
+        with np.errstate(invalid="ignore"):
+            hfv = np.asarray(feats["xcor_hf"], dtype=float)
+            psdv = np.asarray(feats["psd_hf"], dtype=float)
+            thr_psd = up if up is not None else (0.02 if fs > 2600 else 1.4)
+            noisy = (psdv > thr_psd) | (hfv > sim[1])
+            dead = (sim[0] > hfv) & ~noisy
+        if np.any(lab[noisy] != 2) or np.any(lab[dead] != 1) or np.any(np.isin(lab[~noisy & ~dead], [1, 2])):
+            ctx.fail("labels 1/2 do not follow the thresholds with precedence noisy over dead", descs[-1],
+                     {"op": "rule", "kind": "precedence"})
+        # label 3 exactly on the run of channels below -0.75 that ends at the last channel (minus dead/noisy)
+        with np.errstate(invalid="ignore"):
+            lf = np.asarray(feats["xcor_lf"], dtype=float)
+            below = lf < -0.75
+        run_start = nc
+        while run_start > 0 and below[run_start - 1]:
+            run_start -= 1
+        want3 = [i for i in range(run_start, nc) if not noisy[i] and not dead[i]]
+        if [int(i) for i in np.flatnonzero(lab == 3)] != want3:
+            ctx.fail("label 3 is not exactly the block of channels below -0.75 that ends at the last channel",
+                     descs[-1], {"op": "rule", "kind": "top_block"})
+        st.evals += 1
+        st.count("rule_band_%s" % ("ap" if fs > 2600 else "lf"))
+        st.count("rule_user_thresholds" if up is not None else "rule_default_thresholds")
+        if steered:
+            st.count("rule_steered_features")
+        if len(set(int(v) for v in lab)) > 1:
+            st.nontrivial.add(("rule", tuple(int(v) for v in lab), nc, fs, up))
+
     for k in range(n):
         x, fs = random_recording(rng, k)
         nc = x.shape[0]
@@ -554,47 +618,61 @@ def part_rule(ctx, st, model):
                      {"op": "rule", "kind": "exception"})
             continue
         for (up, sim, lab, feats) in res:
-            lab = np.asarray(lab)
-            if lab.shape != (nc,) or not np.all(np.isin(lab, [0, 1, 2, 3])):
-                ctx.fail("labels are not a vector over {0,1,2,3}", seed_desc, {"op": "rule", "kind": "range"})
-                continue
-            inputs.append(enc_rule(nc, fs, up, sim, feats))
-            outs.append([int(v) for v in lab])
-            descs.append({"op": "rule", "nc": nc, "fs": fs, "psd_hf_threshold": up, "similarity_threshold": list(sim),
-                          "xcor_hf": [float(v) for v in feats["xcor_hf"]],
-                          "xcor_lf": [float(v) for v in feats["xcor_lf"]],
-                          "psd_hf": [float(v) for v in feats["psd_hf"]], "labels": [int(v) for v in lab]})
-            for v in lab:
-                label_hist[int(v)] += 1
-            if nc >= 1:
-                ends["recordings"] += 1
-                ends["xcor_hf_first_and_last_exactly_zero"] += int(float(feats["xcor_hf"][0]) == 0.0 and
-                                                                   float(feats["xcor_hf"][-1]) == 0.0)
-            # oracle on the implementation alone: precedence noisy (2) over dead (1) over the rest
-            with np.errstate(invalid="ignore"):
-                hfv = np.asarray(feats["xcor_hf"], dtype=float)
-                psdv = np.asarray(feats["psd_hf"], dtype=float)
-                thr_psd = up if up is not None else (0.02 if fs > 2600 else 1.4)
-                noisy = (psdv > thr_psd) | (hfv > sim[1])
-                dead = (sim[0] > hfv) & ~noisy
-            if np.any(lab[noisy] != 2) or np.any(lab[dead] != 1) or np.any(np.isin(lab[~noisy & ~dead], [1, 2])):
-                ctx.fail("labels 1/2 do not follow the thresholds with precedence noisy over dead", descs[-1],
-                         {"op": "rule", "kind": "precedence"})
-            # label 3 only on one block ending at the last channel
-            three = np.flatnonzero(lab == 3)
-            if three.size:
-                lf = np.asarray(feats["xcor_lf"], dtype=float)
-                run_start = nc - 1
-                while run_start > 0 and lf[run_start - 1] < -0.75:
-                    run_start -= 1
-                if not (lf[nc - 1] < -0.75) or three.min() < run_start:
-                    ctx.fail("a channel outside the top block is labelled outside-brain", descs[-1],
-                             {"op": "rule", "kind": "top_block"})
-            st.evals += 1
-            st.count("rule_band_%s" % ("ap" if fs > 2600 else "lf"))
-            st.count("rule_user_thresholds" if up is not None else "rule_default_thresholds")
-            if len(set(int(v) for v in lab)) > 1:
-                st.nontrivial.add(("rule", tuple(int(v) for v in lab), nc, fs, up))
+            handle(nc, fs, seed_desc, up, sim, lab, feats, False)
+    # steered features: scipy.signal.medfilt is replaced, for the duration of the call, by a stub that makes the
+    # detrended coherence (xcor_hf) and the coherence trend (xcor_lf + 1) take prescribed values, so that the
+    # recommendation block sees every pattern of runs / gaps / ties / NaN - the rule code itself is the real one
+    import scipy.signal as _ss
+    HFV = [-1.0, -0.5, 0.0, 0.0, 0.0, 1.0, 2.0, float("nan")]
+    TRV = [0.0, 0.0, 1.0, 1.0, 0.25, 0.2499, 0.2501, float("nan")]
+
+    def steered(x, fs, hf_des, tr_des, **kw):
+        orig = _ss.medfilt
+        cnt = [0]
+
+        def stub(v, k):
+            cnt[0] += 1
+            v = np.asarray(v, dtype=float)
+            out = np.zeros(v.size)
+            if cnt[0] == 1:
+                out[6:v.size - 6] = v[6:v.size - 6] - hf_des
+            else:
+                out[6:v.size - 6] = tr_des
+            return out
+        _ss.medfilt = stub
+        try:
+            with warnings.catch_warnings():
+                warnings.simplefilter("ignore")
+                return V().detect_bad_channels(x, fs, **kw)
+        finally:
+            _ss.medfilt = orig
+
+    plans = []
+    for nc in range(1, (11 if ctx.thorough() else 9)):
+        for code in range(2 ** nc):          # every below/above pattern of the trend
+            plans.append((nc, [0.0] * nc, [0.0 if (code >> j) & 1 else 1.0 for j in range(nc)]))
+    for _ in range(3000 if ctx.thorough() else 500):
+        nc = rng.choice([2, 3, 5, 8, 12, 13, 30])
+        plans.append((nc, [rng.choice(HFV) for _ in range(nc)],
+                      [rng.choice(TRV) for _ in range(nc)] if rng.random() < 0.5 else
+                      [rng.choice([1.0, 1.0, 0.25])] * (nc - (nc // 2)) + [rng.choice(TRV[:2] + TRV[4:]) for _ in range(nc // 2)]))
+    base = {}
+    for (nc, hf_des, tr_des) in plans:
+        fs = rng.choice([30000, 30000, 2500])
+        if (nc, fs) not in base:
+            base[(nc, fs)] = background(1234 + nc, nc, 128, fs)[0]
+        x = base[(nc, fs)]
+        seed_desc = {"op": "rule-steered", "nc": nc, "fs": fs, "hf": hf_des, "trend": tr_des}
+        kw = {}
+        if rng.random() < 0.3:
+            kw = {"similarity_threshold": (rng.choice([-0.5, -1.0, 0.0]), rng.choice([1, 1.0, 2.0])),
+                  "psd_hf_threshold": rng.choice([0.02, 1.4, 1e-9, 1e9])}
+        try:
+            lab, feats = steered(x, fs, np.array(hf_des), np.array(tr_des), **kw)
+        except Exception as e:
+            ctx.fail("detect_bad_channels raised %r" % (e,), seed_desc, {"op": "rule", "kind": "exception"})
+            continue
+        handle(nc, fs, seed_desc, kw.get("psd_hf_threshold"), kw.get("similarity_threshold", (-0.5, 1)), lab, feats, True)
     common.correspondence(ctx, PROP, HEADER, inputs, outs, lambda i: descs[i], n_kernel=16, shard=8)
     ctx.coverage["rule_label_histogram"] = label_hist
     ctx.measurements["detrended_coherence_at_probe_ends"] = ends
@@ -954,7 +1032,7 @@ def replay(ctx, data):
         x, y = np.array(inp["x"], dtype=np.int64), np.array(inp["y"], dtype=np.float64)
         sc = 2.0 ** (-inp["kd"])
         dat = [[v * sc for v in r] for r in inp["data_int"]]
-        out = impl_interp(x, y, inp["labels"], dat, inp["dtype"], inp["label_float"])
+        out = impl_interp(x, y, inp["labels"], dat, inp["dtype"], inp["label_float"], inp.get("layout", "C"))
         bad = oracle_interp(x, y, inp["labels"], dat, out, inp["dtype"]) + oracle_weights(x, y, inp["labels"])[0]
         print("labels:", inp["labels"])
         print("implementation output:", out.tolist() if out.size < 200 else out.shape)
